@@ -20,6 +20,15 @@ RULE = ("documents x stacks of 0..3 order-sensitive probe middlewares (library p
         "__hash__, a __getattr__ fallback answering every unknown name with a function, alone and combined, 1..3 per stack next to plain "
         "items, in every argument position of the four entry points and through transform: same composition, and transform() of every "
         "item of the stack called exactly as often as the manual composition calls it (once). "
+        "DOCUMENT TEXT THAT COINCIDES WITH THE PROCESS ENVIRONMENT (stream envtext): the text given to parse_string / the decoded content "
+        "of the file given to parse_file is the name of a file that EXISTS at call time (relative to the current directory - the case "
+        "changes into a directory of its own -, ./ and ../ forms, absolute, with blanks / line ends / quotes / invisible characters "
+        "around it, near misses), a directory, a symbolic link, ~ and ~/x with HOME set, a URL (also one that is an existing relative "
+        "path), an encoding name or coding cookie, - and standard-stream names, a module name, an environment-variable reference "
+        "($X ${X} %X%, BIBINPUTS), an include directive, a glob, a list of names, a system path, a reserved word of the library, a name "
+        "next to the parsed FILE; file names that themselves look like BibTeX (as text and as the path of parse_file / write_file); "
+        "all with stacks in every argument position: the result is the split of THE GIVEN TEXT followed by the stack (composition "
+        "computed before the surroundings are created, entry point called inside them). "
         "distinct = distinct case description; non-trivial = a non-empty stack or a non-trivial splice")
 TRUSTED = ["oracle instances supplied by the harness on every case: the graph of Splitter(text).split(), of every shipped middleware "
            "instance on the libraries it is applied to in the manual composition, of the codec (bytes.decode + universal newlines) "
@@ -371,6 +380,242 @@ def generate(rng, tier):
             inp["text"] = rdoc(rng)[0]
         cases.append({"stream": "stateful", "input": inp})
     cases += proto_cases(rng, n)
+    cases += env_cases(rng, n)
+    return cases
+
+
+# ------------------------------------------------------------------ stream envtext: the text coincides with the process environment
+# A case of this stream carries `env`: what exists around the call - files / directories / symbolic links below a directory of its
+# own, the current directory, HOME, environment variables - and a `text` (and, for the file entry points, a `path`) given as a list
+# of parts, a part being a literal string or ["TMP"] (the absolute name of the case's directory).  The document handed to
+# parse_string / written into the file handed to parse_file is a legal input like any other: the name of a file that exists, a
+# directory, `~/x`, a URL, an encoding name, `-`, a module name, `$VAR` ... must be SPLIT AS THE TEXT IT IS and sent through the
+# stack.  The expectation (manual composition) is computed before the environment is populated; the entry point is called inside.
+ENV_DOCS = [1, 2, 3, 9, 7]          # DOCS used as the content of the files a text may name (all non-empty, all different)
+ENV_PATHS = [[["TMP"], "/in.bib"], ["in.bib"], ["./in.bib"], ["deep/er/in.bib"], ["@misc{x, t = {y}}"], ["@article{in.bib}"], ["~in.bib"],
+             ["in bib.txt"], ["-"], ["utf-8"], ["文献-in.bib"], ["in.bib\n"], [["TMP"], "/@comment{x}.bib"], ["$HOME"], ["%in.bib"],
+             ["*.bib"], ["in.bib "], ["@string{s = {v}}\n@misc{k, t = s}"], ["{in}.bib"], ["in.bib~"], ["http:in.bib"], ["gbk"]]
+_ENV_POOL = []
+
+
+def env_scenarios():
+    """The fixed, ordered pool of (kind, text, surroundings).  Nothing random here: generate() combines it with the PRNG."""
+    if _ENV_POOL:
+        return _ENV_POOL
+    import props.charclasses as cc
+    import props.selfref as selfref
+    S = _ENV_POOL
+
+    def add(kind, text, files=(), dirs=(), links=(), cwd=".", home=None, vars=(), path=None):
+        d = dict(kind=kind, text=text if isinstance(text, list) else [text], files=list(files), dirs=list(dirs),
+                 links=[list(x) for x in links], cwd=cwd, home=home, vars=[list(x) for x in vars])
+        if path is not None:
+            d["path"] = path
+        S.append(d)
+    T = ["TMP"]
+    plain = ["refs.bib", "refs", "my refs.bib", "réfs.bib", "文献.bib", "library.bibtex", ".bib", "a", "refs.bib.txt", "Refs.BIB"]
+    for name in plain:
+        add("file_rel", name, files=[name])
+        add("file_abs", [T, "/" + name], files=[name])
+    for name in plain[:4]:
+        add("file_dotrel", "./" + name, files=[name])
+        add("file_dotrel", "sub/" + name, files=["sub/" + name])
+        add("file_dotrel", "sub/../" + name, files=[name], dirs=["sub"])
+        add("file_dotrel", "../" + name, files=[name], cwd="work")
+        add("file_dotrel", "../work/" + name, files=["work/" + name], cwd="work")
+        add("file_dotrel", ".//sub//" + name, files=["sub/" + name])
+        add("file_abs", [T, "/sub/../" + name], files=[name], dirs=["sub"])
+        add("file_abs", [T, "//sub/./" + name], files=["sub/" + name])
+    # the name with something around it: what a strip() / rstrip("\n") / shlex / quote removal before the test would eat
+    edges = [("", "\n"), ("", "\r\n"), ("", "\r"), ("", " "), ("", "\t"), (" ", ""), ("\n", ""), ("  ", "  \n"), ("", "\n\n"), ("\ufeff", ""),
+             ("", "\x00"), ('"', '"'), ("'", "'"), ("<", ">"), ("{", "}"), ("% ", ""), ("%", ""), ("(", ")"), ("[", "]"), ("`", "`")]
+    edges += [("", c) for c in cc.OTHER_ISSPACE[:8]] + [(c, "") for c in cc.INVISIBLE_NOT_SPACE[:3]] + [("", c) for c in cc.LINE_BOUNDARIES[-2:]]
+    for i, (pre, post) in enumerate(edges):
+        name = ["refs.bib", "my refs.bib", "réfs.bib"][i % 3]
+        add("file_edge", pre + name + post, files=[name])
+        if i % 2 == 0:
+            add("file_edge", [pre, T, "/" + name + post], files=[name])
+    for t in ["missing.bib", "REFS.BIB", "refs.bi", "refs.bibx", "refs.bib.bak", "efs.bib", "refs/bib", "refs.bib/", "refs.bib/.", "refs.bib\\",
+              "refs..bib", "refs.bib" * 40, "r" * 300 + ".bib", "sub/" * 1200 + "refs.bib", [T, "/missing.bib"], [T, "x/refs.bib"], [T, "/refs.bib/x"]]:
+        add("file_nearmiss", t, files=["refs.bib"], dirs=["sub"])
+    for t in ["sub", "sub/", "./sub", ".", "./", "..", "/", "//", [T], [T, "/"], [T, "/sub"], "sub/.", "sub\n", " sub", "sub/*"]:
+        add("dir", t, files=["sub/refs.bib", "sub/other.bib", "refs.bib"])
+    add("dir", "refs.bib", files=["refs.bib/inner.bib"])
+    add("dir", [T, "/refs.bib"], files=["refs.bib/refs.bib"])
+    add("dir", "empty", dirs=["empty"])
+    add("dir", "@misc{x}", files=["@misc{x}/refs.bib"])
+    for t in ["~", "~/", "~/refs.bib", "~/refs.bib\n", "~/missing.bib", "~/sub/refs.bib", "~root", "~root/refs.bib", "~nosuchuser/refs.bib", "~+", "~-",
+              " ~/refs.bib", "~/refs.bib ", "~\\refs.bib"]:
+        add("tilde", t, files=["home/refs.bib", "home/sub/refs.bib", "refs.bib"], home="home")
+    add("tilde", "~/refs.bib", files=["~/refs.bib", "home/refs.bib"], home="home")           # exists literally AND after expansion
+    add("tilde", "~/refs.bib", files=["~/refs.bib"])                                         # a directory called ~
+    add("tilde", "~", files=["~"])
+    for name in ["refs.bib~", "~refs.bib", "#refs.bib#", ".#refs.bib", "~$refs.bib", "refs.bib.~1~"]:
+        add("tilde", name, files=[name, "refs.bib"])
+    for t in [["file://", T, "/refs.bib"], ["file://localhost", T, "/refs.bib"], ["file:", T, "/refs.bib"], ["FILE://", T, "/refs.bib"],
+              ["file://", T, "/refs.bib\n"], ["file://", T, "/missing.bib"], ["file://", T], "file:refs.bib", "file:///dev/null", "file://refs.bib",
+              "http://localhost/refs.bib", "https://example.org/refs.bib", "ftp://example.org/pub/refs.bib", "http://127.0.0.1:9/refs.bib",
+              "data:text/plain,@misc{x, t = {y}}", "data:,refs.bib", "mailto:refs@example.org", "doi:10.1000/182", "urn:isbn:0451450523",
+              "www.example.org/refs.bib", "//example.org/refs.bib", "git@example.org:refs.bib", "example.org:refs.bib", "s3://bucket/refs.bib",
+              "zip://refs.zip!/refs.bib", "http://", "https://doi.org/10.1000/182", "<http://localhost/refs.bib>", "\\url{http://localhost/refs.bib}"]:
+        add("url", t, files=["refs.bib"])
+    add("url", "http://localhost/refs.bib", files=["http:/localhost/refs.bib"])               # the URL IS a relative path that exists
+    add("url", "file:refs.bib", files=["file:refs.bib", "refs.bib"])
+    add("url", "file:///refs.bib", files=["file:/refs.bib"])
+    for t in ["utf-8", "UTF-8", "utf8", "latin-1", "latin1", "iso-8859-1", "gbk", "utf-16", "utf-16-le", "ascii", "cp1252", "idna", "rot13", "rot_13",
+              "unicode_escape", "undefined", "mbcs", "utf-8-sig", "punycode", "hex", "base64", "zlib", "encoding=gbk", "locale", "utf-8\n", " gbk"]:
+        add("encoding_name", t)
+    add("encoding_name", "utf-8", files=["utf-8"])
+    add("encoding_name", "gbk", files=["gbk", "refs.bib"])
+    for t in ["% -*- coding: gbk -*-\n@misc{x, t = {y}}\n", "# -*- coding: latin-1 -*-\n@misc{x, t = {é}}\n", "% !TeX encoding = latin1\n@misc{x, t = {é}}\n",
+              "%% encoding: utf-16\n@misc{x, t = {y}}\n", "% Encoding: GBK\n@misc{x, t = {y}}\n", "<?xml version=\"1.0\" encoding=\"latin-1\"?>\n@misc{x, t = {é}}",
+              "#!/usr/bin/env bibtexparser\n@misc{x, t = {y}}\n", "@comment{jabref-meta: fileDirectory:.;}\n@misc{x, file = {:refs.bib:bib}}\n"]:
+        add("coding_cookie", t, files=["refs.bib"])
+    for t in ["-", "--", "-\n", "- ", " -", "/dev/stdin", "/dev/null", "/dev/fd/0", "/dev/tty", "stdin", "<stdin>", "<stdout>", "<string>", "sys.stdin",
+              "CON", "NUL", "0", "1", "2", "&0", "-1", "--help", "-h", "--version"]:
+        add("dash", t)
+    add("dash", "-", files=["-"])
+    add("dash", "--", files=["--", "-"])
+    add("dash", "0", files=["0"])
+    for t in ["bibtexparser", "bibtexparser.middlewares", "bibtexparser.splitter", "bibtexparser.entrypoint", "bibtexparser.middlewares.names", "os",
+              "os.path", "sys", "json", "codecs", "__main__", "builtins", "props.c20", "this", "antigravity", "site", "bibtexparser:parse_string",
+              "bibtexparser.parse_file", "import os", "__import__('os')", "bibtexparser\n", "-m bibtexparser", "pip", "nosuchmodule_c20"]:
+        add("module_name", t)
+    add("module_name", "conf", files=["conf.py"])
+    add("module_name", "conf.py", files=["conf.py"])
+    add("module_name", "pkg", files=["pkg/__init__.py", "pkg/refs.bib"])
+    add("module_name", "pkg.refs", files=["pkg/__init__.py", "pkg/refs.py"])
+    add("module_name", "bibtexparser", files=["bibtexparser"])
+    doc = DOCS[1]
+    V = [["VERIF_C20_DOC", [doc]], ["VERIF_C20_FILE", ["refs.bib"]], ["VERIF_C20_ABS", [T, "/refs.bib"]], ["VERIF_C20_DIR", [T]],
+         ["BIBINPUTS", [T, "/inputs"]], ["TEXINPUTS", [T, "/inputs:"]]]
+    for t in ["$HOME", "${HOME}", "$HOME/refs.bib", "${HOME}/refs.bib", "%HOME%", "%HOME%\\refs.bib", "$PATH", "%PATH%", "$USER", "$PWD", "${PWD}/refs.bib",
+              "$VERIF_C20_DOC", "${VERIF_C20_DOC}", "%VERIF_C20_DOC%", "$VERIF_C20_DOC\n", "$VERIF_C20_FILE", "${VERIF_C20_FILE}", "$VERIF_C20_ABS",
+              "$VERIF_C20_DIR/refs.bib", "${VERIF_C20_DIR}/refs.bib", "$VERIF_C20_UNSET", "${VERIF_C20_UNSET:-refs.bib}", "${VERIF_C20_UNSET-$VERIF_C20_FILE}",
+              "$$", "$", "${", "${}", "$1", "$@", "$?", "VERIF_C20_DOC", "VERIF_C20_FILE", "HOME", "PATH", "BIBINPUTS", "$BIBINPUTS", "$BIBINPUTS/inp.bib", "inp.bib",
+              "inp", "{VERIF_C20_DOC}", "%(HOME)s", "{HOME}", "{0}", "%s", "{}", "@misc{x, t = {$HOME}}", "@string{h = {$VERIF_C20_DOC}}\n@misc{y, t = h}",
+              "@misc{x, t = \"${VERIF_C20_FILE}\"}", "@misc{$VERIF_C20_FILE, t = {x}}", "os.environ['HOME']", "env:HOME", "$env:HOME", "$(HOME)"]:
+        add("envvar", t, files=["refs.bib", "home/refs.bib", "inputs/inp.bib"], home="home", vars=V)
+    for t in ["\\input{refs.bib}", "\\bibliography{refs}", "\\include{refs}", "\\addbibresource{refs.bib}", "@include{refs.bib}", "@input{refs.bib}",
+              "@import{refs.bib}", "@comment{refs.bib}", "@preamble{\"\\input{refs.bib}\"}", "#include \"refs.bib\"", "#include <refs.bib>", "!include refs.bib",
+              "< refs.bib", "<refs.bib", "> refs.bib", ">> refs.bib", "refs.bib|", "|cat refs.bib", "| cat refs.bib", "$(cat refs.bib)", "`cat refs.bib`",
+              "cat refs.bib", "source refs.bib", ". refs.bib", "@refs.bib", ["@", T, "/refs.bib"], "@@refs.bib", "file = {refs.bib}", "@misc{k, file = {refs.bib}}",
+              "@misc{k, file = {:refs.bib:PDF}}", "@misc{k, crossref = {refs.bib}}", "@misc{refs.bib, t = {x}}", ["@misc{", T, "/refs.bib, t = {x}}"],
+              "@string{refs.bib = {x}}", "@misc{k, t = refs.bib}", "@misc{k, t = refs # bib}", "@refs.bib{k, t = {x}}", "% refs.bib", "%include refs.bib",
+              "include::refs.bib[]", "{{refs.bib}}", "{% include 'refs.bib' %}", "<<refs.bib", "import refs.bib", "load refs.bib", "open refs.bib",
+              "refs.bib:1", "refs.bib:1:1", "refs.bib#k", "refs.bib?raw", "refs.bib::k"]:
+        add("directive", t, files=["refs.bib", "refs"])
+    for name in ["@misc{x}", "@article{k, t = {v}}", "@comment{refs.bib}", "@string{s = {v}}", "@misc{x}\n", "{refs.bib}", "% refs.bib", "@preamble{\"p\"}",
+                 "@misc{a,b={c}}.bib", "@", "{", "}", "@misc{x", "@misc{x,\n t = {v}\n}", "@string{s = {v}}\n@misc{k, t = s}", "\"refs.bib\"", "@misc{x} ", "=", "#", ","]:
+        add("biblike_name", name, files=[name])
+        add("biblike_name", [T, "/" + name], files=[name])
+    add("biblike_name", "@misc{x}/@misc{y}", files=["@misc{x}/@misc{y}"])
+    for t in ["*.bib", "refs.*", "?efs.bib", "[r]efs.bib", "**/*.bib", "*", "**", "refs.{bib,txt}", "sub/*", "*/*.bib", [T, "/*.bib"], "refs.bib*", "[!x]efs.bib"]:
+        add("glob", t, files=["refs.bib", "sub/other.bib"])
+    add("glob", "*.bib", files=["*.bib", "refs.bib"])
+    add("glob", "?", files=["?", "a"])
+    for t in ["refs.bib\nother.bib", "refs.bib\nother.bib\n", "refs.bib other.bib", "refs.bib,other.bib", "refs.bib, other.bib", "refs.bib:other.bib",
+              "refs.bib;other.bib", "refs.bib\x00other.bib", "['refs.bib', 'other.bib']", "[\"refs.bib\"]", "refs.bib\tother.bib", "refs.bib\r\nother.bib\r\n",
+              ["refs.bib\n", T, "/other.bib\n"], "refs.bib\n\nother.bib", "refs.bib\n@misc{x, t = {y}}\n", "@misc{x, t = {y}}\nrefs.bib", "@misc{x, t = {y}}\nrefs.bib\n",
+              "refs.bib\n% comment", "refs.bib refs.bib"]:
+        add("name_list", t, files=["refs.bib", "other.bib"])
+    add("symlink", "link.bib", files=["refs.bib"], links=[["link.bib", "refs.bib"]])
+    add("symlink", [T, "/link.bib"], files=["refs.bib"], links=[["link.bib", "refs.bib"]])
+    add("symlink", "dangling.bib", files=["refs.bib"], links=[["dangling.bib", "nowhere.bib"]])
+    add("symlink", "ldir", files=["sub/refs.bib"], links=[["ldir", "sub"]])
+    add("symlink", "ldir/refs.bib", files=["sub/refs.bib"], links=[["ldir", "sub"]])
+    add("symlink", "loop.bib", links=[["loop.bib", "loop.bib"]])
+    add("symlink", "null.bib", links=[["null.bib", "/dev/null"]])
+    for t in ["/etc/passwd", "/etc/hostname", "/etc/hosts", "/proc/self/environ", "/proc/self/cmdline", "/proc/self/status", "/dev/null", "/tmp", "/usr/bin/env",
+              "/bin/sh", "C:\\refs.bib", "C:/refs.bib", "\\\\server\\share\\refs.bib", "/nonexistent/refs.bib", "/etc/passwd\n", "/proc/self/cwd/refs.bib",
+              "/proc/self/fd/0", "/etc", "/root", "/home"]:
+        add("system_path", t, files=["refs.bib"])
+    # the library's own artefacts and reserved words (selfref): as document, and as the name of an existing file
+    magic = [w for w in selfref.MAGIC_WORDS if isinstance(w, str) and w and "/" not in w and "\x00" not in w and len(w) < 100]
+    for i, w in enumerate(magic):
+        add("magic_word", w, files=[w] if i % 2 == 0 and w not in (".", "..") else [])
+    # parse_file: the content names a file that exists next to the FILE, not in the current directory; or names the file itself
+    add("rel_to_file", "other.bib", files=["deep/other.bib"], path=["deep/in.bib"])
+    add("rel_to_file", "other.bib\n", files=["deep/other.bib"], path=[T, "/deep/in.bib"])
+    add("rel_to_file", "./other.bib", files=["deep/other.bib", "work/x.bib"], path=["../deep/in.bib"], cwd="work")
+    add("rel_to_file", "../other.bib", files=["other.bib"], path=["deep/in.bib"], cwd="work")
+    add("rel_to_file", "in.bib", path=["in.bib"])
+    add("rel_to_file", "in.bib\n", path=["deep/in.bib"])
+    add("rel_to_file", [T, "/in.bib"], path=[T, "/in.bib"])
+    add("rel_to_file", "deep/in.bib", path=["deep/in.bib"])
+    add("rel_to_file", "@misc{x}", path=["@misc{x}"])
+    return S
+
+
+def _parts_ascii(parts):
+    return all(p.isascii() for p in parts if isinstance(p, str))
+
+
+def env_case(rng, sc, op, i, random_stack):
+    """One case of the envtext stream from scenario `sc`: the files the text may name get BibTeX documents as content (so that reading
+    them instead of splitting the text shows), the stack argument and the file parameters rotate / are drawn."""
+    files = [[f, ENV_DOCS[(i + j) % len(ENV_DOCS)] if not random_stack else rng.choice(ENV_DOCS)] for j, f in enumerate(sc["files"])]
+    env = dict(kind=sc["kind"], files=files, dirs=sc["dirs"], links=sc["links"], cwd=sc["cwd"], home=sc["home"], vars=sc["vars"])
+    if random_stack:
+        ps, am = rargs(rng)
+    else:
+        ps, am = [([], None), (None, None), ([["lib", 1, True], ["lib", 2, False]], None), (None, [["lib", 3, True]]),
+                  ([["blk", 4, True, {c: ["self"] for c in CLASSES}]], None), (None, [])][i % 6]
+    cont = rng.choice(["list", "list", "tuple", "gen", "iter"]) if random_stack else "list"
+    text = sc["text"]
+    if op == "parse":
+        return {"stream": "envtext", "input": dict(op="parse", text=text, ps=ps, am=am, cont=cont, env=env)}
+    if op == "parse_file":
+        taken = {f for f, _ in files} | set(sc["dirs"]) | {x[0] for x in sc["links"]}
+        path = sc.get("path")
+        if path is None:
+            path = rng.choice(ENV_PATHS) if random_stack else ENV_PATHS[i % len(ENV_PATHS)]
+            flat = "".join(p for p in path if isinstance(p, str)).lstrip("/")
+            if any(flat == t or t.startswith(flat + "/") or flat.startswith(t + "/") for t in taken) or sc["cwd"] != ".":
+                path = ENV_PATHS[0]
+        env["path"] = path
+        encs = ENCODINGS if _parts_ascii(text) else ["utf-8", "utf-16"]
+        fe = rng.choice(encs) if random_stack else encs[i % len(encs)]
+        re_ = None if (fe == "utf-8" and i % 2) else fe
+        return {"stream": "envtext", "input": dict(op="parse_file", text=text, file_enc=fe, read_enc=re_, ps=ps, am=am,
+                                                    cont="list" if cont == "iter" else cont, env=env)}
+    if op == "write":
+        return {"stream": "envtext", "input": dict(op="write", text=text, parsed=["raw", "default"][i % 2], ps=ps, am=am, fmt=None, cont=cont, env=env)}
+    env["path"] = rng.choice(ENV_PATHS) if random_stack else ENV_PATHS[i % len(ENV_PATHS)]
+    return {"stream": "envtext", "input": dict(op="write_file", text=text, parsed=["raw", "default"][i % 2], ps=ps, am=am, fmt=None,
+                                                cont="list" if cont in ("gen", "tuple") else cont, target=["path", "path_existing"][i % 2],
+                                                enc="utf-8", pre="", env=env)}
+
+
+def env_cases(rng, n):
+    """DOCUMENT TEXT THAT COINCIDES WITH SOMETHING IN THE PROCESS ENVIRONMENT (see the comment above env_scenarios)."""
+    S = env_scenarios()
+    cases = []
+    # bounded exhaustive: every scenario through parse_string and through parse_file (stack argument, path form, encoding rotating)
+    for i, sc in enumerate(S):
+        if "path" not in sc:
+            cases.append(env_case(rng, sc, "parse", i, False))
+        cases.append(env_case(rng, sc, "parse_file", i, False))
+    # the path handed to parse_file / write_file coincides with something (looks like BibTeX, `-`, `~x`, an encoding name ...): ordinary documents
+    plain = dict(kind="path_only", files=[], dirs=[], links=[], cwd=".", home=None, vars=[])
+    for i, p in enumerate(ENV_PATHS):
+        for k in (0, 1):
+            sc = dict(plain, text=[DOCS[ENV_DOCS[(i + k) % len(ENV_DOCS)]]], path=p)
+            cases.append(env_case(rng, sc, "parse_file", i + k, False))
+        sc = dict(plain, text=[DOCS[ENV_DOCS[i % len(ENV_DOCS)]]])
+        cases.append(env_case(rng, sc, "write_file", i, False))
+    # writing a library whose text coincides with the environment (every third scenario)
+    for i, sc in enumerate(S[::3]):
+        if "path" not in sc:
+            cases.append(env_case(rng, sc, "write" if i % 3 else "write_file", i, False))
+    # random: scenario x entry point x stack in every argument position x container x content of the named files
+    for i in range(300 * n):
+        sc = rng.choice(S)
+        r = rng.random()
+        op = "parse" if r < 0.5 else ("parse_file" if r < 0.85 else ("write" if r < 0.93 else "write_file"))
+        if "path" in sc:
+            op = "parse_file"
+        cases.append(env_case(rng, sc, op, i, True))
     return cases
 
 
@@ -420,7 +665,14 @@ def shrink(case):
         bs = inp["blocks"]
         for i in range(len(bs)):
             mk(blocks=bs[:i] + bs[i + 1:])
-    if inp.get("text"):
+    if inp.get("env"):
+        env = inp["env"]            # fewer things around the call; the text stays what it is
+        for k in ("files", "dirs", "links", "vars"):
+            for i in range(len(env.get(k) or [])):
+                mk(env=dict(env, **{k: env[k][:i] + env[k][i + 1:]}))
+        if env.get("home"):
+            mk(env=dict(env, home=None))
+    elif inp.get("text"):
         for d in DOCS:
             if len(d) < len(inp["text"]):
                 mk(text=d)
@@ -930,6 +1182,101 @@ def outcome(r, f):
     return implutil.r_ok(f(r[1])) if r[0] == "ok" else implutil.r_exc(r[1])
 
 
+class EnvCtx:
+    """The surroundings of one envtext case.  Its directory has a name that is a function of the case and of this process (the absolute
+    name is part of some texts: a second evaluation in the same process must see the same text).  __init__ only creates the empty
+    directory and resolves text and path; enter() populates it, changes directory and sets the variables; leave() restores all."""
+
+    def __init__(self, inp):
+        import hashlib
+        import os
+        import shutil
+        import tempfile
+        self.env = env = inp["env"]
+        h = hashlib.sha1(json.dumps(inp, sort_keys=True).encode("utf-8")).hexdigest()[:10]
+        # a memory file system when there is one: each case makes and removes a few directories, which costs milliseconds each on disk
+        base = "/dev/shm" if (os.path.isdir("/dev/shm") and os.access("/dev/shm", os.W_OK | os.X_OK)) else tempfile.gettempdir()
+        self.root = os.path.join(os.path.realpath(base), "verif_c20_env_%d_%s" % (os.getpid(), h))
+        shutil.rmtree(self.root, ignore_errors=True)
+        os.makedirs(self.root)
+        self.cwd = os.path.normpath(os.path.join(self.root, env.get("cwd") or "."))
+        self.text = self.subst(inp["text"])
+        self.path = self.subst(env["path"]) if env.get("path") is not None else None
+        self.saved = None
+
+    def subst(self, parts):
+        if isinstance(parts, str):
+            return parts
+        return "".join(p if isinstance(p, str) else {"TMP": self.root}[p[0]] for p in parts)
+
+    def enter(self, content=None):
+        """content: the bytes of the file at self.path (parse_file), None when the call itself is to create it."""
+        import os
+        env = self.env
+        touched = (["HOME"] if env.get("home") else []) + [name for name, _ in env.get("vars") or []]
+        self.saved = (os.getcwd(), {k: os.environ.get(k) for k in touched})
+        os.makedirs(self.cwd, exist_ok=True)
+        for d in env.get("dirs") or []:
+            os.makedirs(os.path.join(self.root, d), exist_ok=True)
+        if env.get("home"):
+            os.makedirs(os.path.join(self.root, env["home"]), exist_ok=True)
+        for rel, di in env.get("files") or []:
+            full = os.path.join(self.root, rel)
+            os.makedirs(os.path.dirname(full), exist_ok=True)
+            with open(full, "wb") as fh:
+                fh.write((DOCS[di] if isinstance(di, int) else di).encode("utf-8"))
+        for rel, target in env.get("links") or []:
+            os.symlink(target, os.path.join(self.root, rel))
+        os.chdir(self.cwd)
+        if self.path is not None:
+            parent = os.path.dirname(self.path)
+            if parent:
+                os.makedirs(parent, exist_ok=True)
+            if content is not None:
+                with open(self.path, "wb") as fh:
+                    fh.write(content)
+        if env.get("home"):
+            os.environ["HOME"] = os.path.join(self.root, env["home"])
+        for name, parts in env.get("vars") or []:
+            os.environ[name] = self.subst(parts)
+
+    def observe(self):
+        """What the text coincides with, measured inside the environment (goes to the distribution)."""
+        import os
+        t = self.text
+        tags = []
+
+        def probe(label, f):
+            try:
+                if f():
+                    tags.append("envobs_" + label)
+            except (ValueError, OSError, UnicodeError):
+                tags.append("envobs_os_refuses_text")
+        probe("text_is_existing_file", lambda: os.path.isfile(t))
+        probe("text_is_existing_dir", lambda: os.path.isdir(t))
+        probe("text_exists_not_file_not_dir", lambda: os.path.lexists(t) and not os.path.isfile(t) and not os.path.isdir(t))
+        probe("stripped_text_exists", lambda: t.strip() != t and os.path.lexists(t.strip()))
+        probe("expanduser_text_exists", lambda: os.path.expanduser(t) != t and os.path.lexists(os.path.expanduser(t.strip())))
+        probe("expandvars_changes_text", lambda: os.path.expandvars(t) != t)
+        probe("text_has_bibtex_chars", lambda: any(c in t for c in "@{}"))
+        probe("text_is_one_line", lambda: "\n" not in t.rstrip("\r\n") and "\r" not in t.rstrip("\r\n"))
+        return sorted(set(tags))
+
+    def leave(self):
+        import os
+        import shutil
+        if self.saved is not None:
+            cwd, old = self.saved
+            os.chdir(cwd)
+            for k, v in old.items():
+                if v is None:
+                    os.environ.pop(k, None)
+                else:
+                    os.environ[k] = v
+            self.saved = None
+        shutil.rmtree(self.root, ignore_errors=True)
+
+
 def impl(case):
     import enc
     import implutil
@@ -950,16 +1297,26 @@ def impl(case):
     ps, am, cont = inp.get("ps"), inp.get("am"), inp.get("cont", "list")
     ref = Ref()
     tmp = None
+    ctx = None
     del _BUILT["impl"][:], _BUILT["ref"][:]
     try:
+        if inp.get("env") is not None:
+            # envtext: text and path are resolved against the case's (still empty) directory; every expectation below is computed
+            # BEFORE the surroundings exist (ctx.enter), the entry point is called inside them
+            ctx = EnvCtx(inp)
+            inp = dict(inp, text=ctx.text)
+            rec["tags"].append("env_" + inp["env"]["kind"])
         if op in ("parse", "parse_file"):
             dres = None
             if op == "parse_file":
-                tmp = tempfile.mkdtemp(prefix="verif_c20_")
-                path = os.path.join(tmp, "in.bib")
                 data = inp["text"].encode(inp["file_enc"])
-                with open(path, "wb") as fh:
-                    fh.write(data)
+                if ctx is None:
+                    tmp = tempfile.mkdtemp(prefix="verif_c20_")
+                    path = os.path.join(tmp, "in.bib")
+                    with open(path, "wb") as fh:
+                        fh.write(data)
+                else:
+                    path = ctx.path
                 dres = implutil.guarded(lambda: decode_ref(data, inp["read_enc"]))
 
             def reference():
@@ -978,6 +1335,12 @@ def impl(case):
                 kw["parse_stack"] = build_stack(ps, cont)
             if am is not None:
                 kw["append_middleware"] = build_stack(am, cont)
+            if ctx is not None:
+                ctx.enter(data if op == "parse_file" else None)
+                rec["tags"] += ctx.observe()
+                if op == "parse_file":
+                    rec["tags"].append("envpath_" + ("absolute" if os.path.isabs(path) else "relative")
+                                       + ("_bibtex_chars" if any(c in os.path.basename(path) for c in "@{}") else ""))
             if op == "parse":
                 got = implutil.guarded(lambda: bibtexparser.parse_string(inp["text"], **kw))
                 sx_in = [70, enc.enc_str(inp["text"]), ref.stable, enc_ostack(ps, 0), enc_ostack(am, 100), ref.table]
@@ -1010,6 +1373,9 @@ def impl(case):
                     kw["prepend_middleware"] = build_stack(am, cont)
                 if f is not None:
                     kw["bibtex_format"] = fo
+                if ctx is not None:
+                    ctx.enter()
+                    rec["tags"] += ctx.observe()
                 got = implutil.guarded(lambda: bibtexparser.write_string(lib0, **kw))
                 sx_in = [71, in_enc, enc_ostack(ps, 0), enc_ostack(am, 100), enc_ofmt(f, fo), ref.table]
                 rec["sx_out"] = outcome(got, enc.enc_str)
@@ -1024,8 +1390,15 @@ def impl(case):
                     kw["append_middleware"] = build_stack(am, cont)
                 if f is not None:
                     kw["bibtex_format"] = fo
-                tmp = tempfile.mkdtemp(prefix="verif_c20_")
-                path = os.path.join(tmp, "out.bib")
+                if ctx is None:
+                    tmp = tempfile.mkdtemp(prefix="verif_c20_")
+                    path = os.path.join(tmp, "out.bib")
+                else:
+                    path = ctx.path
+                    ctx.enter()
+                    rec["tags"] += ctx.observe()
+                    rec["tags"].append("envpath_" + ("absolute" if os.path.isabs(path) else "relative")
+                                       + ("_bibtex_chars" if any(c in os.path.basename(path) for c in "@{}") else ""))
                 target, pre, fenc = inp["target"], inp["pre"], inp["enc"]
                 import io
                 import locale
@@ -1069,6 +1442,8 @@ def impl(case):
                 same = rec["sx_out"] == e_out and (got[0] == "exc" or got[1][0] is None)
                 summary = ("raised %s" % got[2]) if got[0] == "exc" else repr(got[1][1])[:200]
     finally:
+        if ctx is not None:
+            ctx.leave()
         if tmp:
             shutil.rmtree(tmp, ignore_errors=True)
     rec["summary"] = summary
